@@ -19,6 +19,7 @@ var LexerDevs = []struct{ Name, Breaks string }{
 	{"hdrparam_no_eof", "NoSpin"},
 	{"soydocparam_eof_underflow", "NoCrash"},
 	{"neg_unicode_digit", "NoCrash"},
+	{"literal_close_mismatch", "NoCrash"},
 	{"string_no_eof", "NoSpin"},
 	{"blockcomment_no_eof", "NoSpin"},
 	{"soydoc_no_eof", "NoSpin"},
@@ -235,7 +236,7 @@ func (m *Models) startDevs() {
 	thorough := ctx.Thorough()
 	if has("lexer") {
 		for i, d := range LexerDevs {
-			if !thorough && i >= 4 {
+			if !thorough && i >= 5 {
 				break
 			}
 			switch d.Breaks {
